@@ -90,7 +90,9 @@ class P(StreamProperty):
                     if N1 > r or N1 > 255: continue
                     if N1 * k > 200000: continue
                     combo += 1   # the fixed seeds rotate per configuration (both ends of the legal range come up every fourth one)
-                    for sd in [seeds[combo % 4], rng.randint(1, 2 ** 31 - 2)] if tier == 'quick' else seeds + [rng.randint(1, 2 ** 31 - 2) for _ in range(3)]:
+                    big = (k >= 1000 or N1 * k > 20000)     # thorough tier: the largest matrices get two seeds instead of seven
+                    for sd in [seeds[combo % 4], rng.randint(1, 2 ** 31 - 2)] if (tier == 'quick' or big) and not (tier == 'thorough' and not big) else \
+                              seeds + [rng.randint(1, 2 ** 31 - 2) for _ in range(3)]:
                         cfg = gens.Cfg('ldpc', k, r, length=1, N1=N1, seed=sd)
                         b = self.prefix(rng, cfg)
                         # encoder session 8, decoder session 9 (odd N1: the decoder's matrix is untouched; even N1: compared through the model)
